@@ -19,9 +19,8 @@
   `panic "<fn>:<add|mul>"`) and `wrapping` (release: mod 2^16).
 
   Build configuration modelled: the `no_std` configuration without `log`/`defmt` that the harness builds, in
-  which `fmt::trace!(..)` EVALUATES its arguments (`let _ = (&a, &b)`); the two trace arguments that contain
-  arithmetic (`word_addr * 2` in `category`, `self.byte_pos + skip` in `skip_ahead_bytes`) are therefore
-  overflow sites of their own. Import-free apart from Basic/Generated: links into the native drivers.
+  which `fmt::trace!(..)` EVALUATES its arguments (`let _ = (&a, &b)`); a trace argument that contains
+  unchecked arithmetic (`self.byte_pos + skip` in `skip_ahead_bytes`) is therefore an overflow site of its own. Import-free apart from Basic/Generated: links into the native drivers.
 -/
 import EcModel.Basic
 import EcModel.Generated.Eeprom
@@ -288,11 +287,12 @@ def catStep (m : Mode) (cat : Nat) (chunk : List Nat) (wa ne : Nat) : M CatStep 
       let ne' := if len = 0 then ne + 1 else ne
       if ne' ≥ Gen.Eeprom.EMPTY_CATEGORY_LIMIT then ret (.done none)
       else
-        -- trace argument `word_addr * 2`
-        bind (mul16 m "category:mul" wa' 2) fun _ =>
+        -- (the trace argument is `u32::from(word_addr) * 2`: cannot overflow)
         if ct = cat then bind (Range.new m wa' len) fun r => ret (.done (some r))
         else if ct = Gen.Eeprom.CAT_END then ret (.done none)
-        else bind (add16 m "category:add" wa' len) fun wa'' => ret (.next wa'' ne')
+        -- `word_addr.checked_add(len_words).ok_or(Error::Eeprom(EepromError::SectionOverrun))?`
+        else if wa' + len < 65536 then ret (.next (wa' + len) ne')
+        else fail .overrun
 
 /-- The `loop` of `SubDeviceEeprom::category`, accumulator style (`calls` = provider calls so far). -/
 def catLoop (m : Mode) (p : Prov) (cat : Nat) : Nat → Nat → Nat → Nat → M (Option Range)
@@ -304,9 +304,9 @@ def catLoop (m : Mode) (p : Prov) (cat : Nat) : Nat → Nat → Nat → Nat → 
     | (.err e, c) => (.err e, calls + 1 + c)
     | (.panic w, c) => (.panic w, calls + 1 + c)
 
-/-- Fuel for the category walk: the loop state `(word_addr, num_empty_categories)` ranges over
-    `65536 × 32` values; a run that is longer repeats a state and never ends. -/
-def catFuel : Nat := 65536 * 32 + 8
+/-- Fuel for the category walk: the word address grows by at least 2 per iteration (checked addition), so
+    32 768 iterations always suffice (`Lemmas/EepromSafe.catLoop_terminates`). -/
+def catFuel : Nat := 32768 + 8
 
 /-- `SubDeviceEeprom::category(category)`; `cat` is the canonical discriminant searched for. -/
 def category (m : Mode) (p : Prov) (cat : Nat) : M (Option Range) :=
@@ -330,12 +330,11 @@ def setStationAlias (m : Mode) (d : Dev) (alias : Nat) : MW Unit :=
   bindW (Range.writeAll m d r2 (le16 checksum)) fun _ d =>
   liftW d (ret ())
 
-/-- `SubDeviceEeprom::size`: `(u16::from_le_bytes(buf) + 1) * 128`. -/
+/-- `SubDeviceEeprom::size`: `(usize::from(u16::from_le_bytes(buf)) + 1) * 128` (cannot overflow `usize`). -/
 def size (m : Mode) (p : Prov) : M Nat :=
   bind (startAt m Gen.Eeprom.SIZE_WORD_ADDR 2) fun r =>
   bind (eofToOverrun (Range.readExact m p r 2)) fun res =>
-  bind (add16 m "size:add" (rd16 res.1) 1) fun k =>
-  mul16 m "size:mul" k 128
+  ret ((rd16 res.1 + 1) * 128)
 
 /-- `SubDeviceIdentity` as `(vendor, product, revision, serial)`. -/
 def parseIdentity (b : List Nat) : Nat × Nat × Nat × Nat :=
